@@ -184,7 +184,20 @@ pub fn replay(path: &str, out_dir: &str) -> Result<Value, String> {
             Err(_) => continue,
         };
         n_beh += 1;
-        let mut um = UserModel::new_empty("book", "en", "UTC", "en")?;
+        // column widths come as descriptors that may span several columns (what an imported file holds):
+        // adjacent columns of equal width share one descriptor
+        let mut widths: Vec<(i32, f64)> = b["init"]["colw"].as_array().map(|a| a.iter().map(|p| (p[0].as_i64().unwrap_or(1) as i32, p[1].as_f64().unwrap_or(90.0))).collect()).unwrap_or_default();
+        widths.sort_by(|x, y| x.0.cmp(&y.0));
+        let mut cols: Vec<ironcalc_base::types::Col> = vec![];
+        for (c, w) in widths {
+            match cols.last_mut() {
+                Some(d) if d.max + 1 == c && (d.width - w / ironcalc_base::COLUMN_WIDTH_FACTOR).abs() < 1e-9 => d.max = c,
+                _ => cols.push(ironcalc_base::types::Col { min: c, max: c, width: w / ironcalc_base::COLUMN_WIDTH_FACTOR, custom_width: true, hidden: false, style: None }),
+            }
+        }
+        let mut wb = ironcalc_base::Model::new_empty("book", "en", "UTC", "en")?.workbook.clone();
+        wb.worksheets[0].cols = cols;
+        let mut um = UserModel::from_model(ironcalc_base::Model::from_workbook(wb, "en")?);
         um.new_sheet()?;
         um.set_selected_sheet(0)?;
         // ---- build the initial workbook
@@ -210,9 +223,6 @@ pub fn replay(path: &str, out_dir: &str) -> Result<Value, String> {
         }
         for p in init["rowh"].as_array().cloned().unwrap_or_default() {
             um.set_rows_height(0, p[0].as_i64().unwrap_or(1) as i32, p[0].as_i64().unwrap_or(1) as i32, p[1].as_f64().unwrap_or(25.0))?;
-        }
-        for p in init["colw"].as_array().cloned().unwrap_or_default() {
-            um.set_columns_width(0, p[0].as_i64().unwrap_or(1) as i32, p[0].as_i64().unwrap_or(1) as i32, p[1].as_f64().unwrap_or(90.0))?;
         }
         for p in init["links"].as_array().cloned().unwrap_or_default() {
             let link: ironcalc_base::types::Link = serde_json::from_value(json!({"type": "External", "target": format!("https://x.y/{}", p), "tooltip": null})).map_err(|e| e.to_string())?;
@@ -258,6 +268,9 @@ pub fn replay(path: &str, out_dir: &str) -> Result<Value, String> {
                 refused += 1;
                 break;
             }
+            // an insertion that goes wrong does not end the behaviour when the next step deletes the same band:
+            // C14 judges the pair by its final state
+            let c14_next = op.starts_with("insert") && steps.get(si + 1).map(|nx| nx["a"]["op"].as_str().unwrap_or("") == op.replace("insert", "delete") && nx["a"]["i"] == a["i"] && nx["a"]["k"] == a["k"]).unwrap_or(false);
             let prop_of = |what: &str| -> &'static str {
                 match (op.as_str(), what) {
                     (_, "link") | (_, "cf") | ("clear_contents", _) | ("undo", _) | ("copy_paste", _) => "C33",
@@ -351,13 +364,13 @@ pub fn replay(path: &str, out_dir: &str) -> Result<Value, String> {
             }
             if bad {
                 n_mism += 1;
-                break 'steps;
+                if c14_next { continue 'steps; } else { break 'steps; }
             }
             for key in obs.cells.keys() {
                 if !expected_pos.contains(key) {
                     report("cell", "extra-cell", format!("{:?} holds {}", key, obs.cells[key]));
                     n_mism += 1;
-                    break 'steps;
+                    if c14_next { continue 'steps; } else { break 'steps; }
                 }
             }
             // ---- defined names are displaced like any reference
@@ -373,7 +386,7 @@ pub fn replay(path: &str, out_dir: &str) -> Result<Value, String> {
                 if nm["ref"]["st"] != "open" && (refs.len() != 1 || !spec_ref_matches(&nm["ref"], &refs[0])) {
                     report("cell", "defined-name-target", format!("name {} is {:?} ; want {}", nm["name"], got, nm["ref"]));
                     n_mism += 1;
-                    break 'steps;
+                    if c14_next { continue 'steps; } else { break 'steps; }
                 }
             }
             // ---- sizes
@@ -384,10 +397,13 @@ pub fn replay(path: &str, out_dir: &str) -> Result<Value, String> {
                     n_checks += 1;
                     let got = if which == "row" { m.get_row_height(0, idx as i32).unwrap_or(-1.0) } else { m.get_column_width(0, idx as i32).unwrap_or(-1.0) };
                     let w = want.get(&idx).cloned().unwrap_or(if which == "row" { 25 } else { 90 });
+                    if w == 0 {
+                        continue; // a freshly inserted row / column: its size is not the statement's business
+                    }
                     if (got - w as f64).abs() > 1e-6 {
                         report("size", &format!("{which}-size"), format!("{which} {idx}: got {got} want {w}"));
                         n_mism += 1;
-                        break 'steps;
+                        if c14_next { continue 'steps; } else { break 'steps; }
                     }
                 }
             }
@@ -396,9 +412,12 @@ pub fn replay(path: &str, out_dir: &str) -> Result<Value, String> {
             let got_links: BTreeSet<(i64, i64)> = um.get_links_list(0).unwrap_or_default().iter().map(|l| (l.row as i64, l.column as i64)).collect();
             n_checks += 1;
             if want_links != got_links {
+                if prop_of("cell") != "C33" {
+                    report("cell", "link-position", format!("got {:?} want {:?}", got_links, want_links));
+                }
                 report("link", "link-position", format!("got {:?} want {:?}", got_links, want_links));
                 n_mism += 1;
-                break 'steps;
+                if c14_next { continue 'steps; } else { break 'steps; }
             }
             // ---- conditional format area
             let cf = &st["cf"];
@@ -411,7 +430,7 @@ pub fn replay(path: &str, out_dir: &str) -> Result<Value, String> {
                     if got_cf.len() != 1 || norm(&got_cf[0]) != want {
                         report("cf", "cf-area", format!("got {:?} want {}", got_cf, want));
                         n_mism += 1;
-                        break 'steps;
+                        if c14_next { continue 'steps; } else { break 'steps; }
                     }
                 }
                 "referr" => {
@@ -419,7 +438,7 @@ pub fn replay(path: &str, out_dir: &str) -> Result<Value, String> {
                     if got_cf.iter().any(|r| !r.contains("#REF") && !r.is_empty()) {
                         report("cf", "cf-area-not-removed", format!("got {:?}", got_cf));
                         n_mism += 1;
-                        break 'steps;
+                        if c14_next { continue 'steps; } else { break 'steps; }
                     }
                 }
                 _ => {}
@@ -439,7 +458,7 @@ pub fn replay(path: &str, out_dir: &str) -> Result<Value, String> {
                     if refs.len() != 1 || !spec_ref_matches(&cf["fref"], &refs[0]) {
                         report("cf", "cf-formula", format!("rule formula {:?} ; want {}", rule["formula"], cf["fref"]));
                         n_mism += 1;
-                        break 'steps;
+                        if c14_next { continue 'steps; } else { break 'steps; }
                     }
                 }
             }
